@@ -5,10 +5,10 @@ CONSTANTS
  PieceLen = 2
  MaxBuf = 3
  Modes <- ModesAll
- PatchCL = FALSE
+ PatchCL = TRUE
  Mut = "none"
  RecordHist = FALSE
  Monitor = TRUE
  FullProduct = TRUE
-INVARIANTS ChunkingInvariance PassThrough CloseWaits SelectionRule FaultSurfaces NoSilentTruncation NotExistSurfaces NoPartialInput MonitorQuiet MonitorFinal
+INVARIANTS ChunkingInvariance PassThrough CloseWaits ContentLengthGone SelectionRule FaultSurfaces NoSilentTruncation NotExistSurfaces NoPartialInput MonitorQuiet MonitorFinal
 PROPERTIES NoWriteAfterClose CloseReturned
